@@ -223,7 +223,7 @@ def emit_array_jobs(rng, tier):
     jobs = []
     for cname in ARRAY_CLASSES:
         nparts = CLASSES[cname]
-        for _ in range(6 if tier == "quick" else 300):
+        for _ in range(6 if tier == "quick" else 1000):
             n_in = 3 + rng.below(3)
             inputs, re = [], []
             for _i in range(n_in):
@@ -266,7 +266,7 @@ def emit(seed, tier, with_numpy=False):
     jobs = []
     if with_numpy:
         jobs += emit_array_jobs(Splitmix(seed ^ 0xA88A), tier)
-    n_scalar = 40 if tier == "quick" else 2500
+    n_scalar = 40 if tier == "quick" else 10000
     for cname, nparts in CLASSES.items():
         for _ in range(n_scalar):
             n_in = 1 + rng.below(3)
@@ -402,7 +402,7 @@ def emit(seed, tier, with_numpy=False):
         if drv == "jacobian":
             sub["rets"] = [nin, nin + 1]
         jobs.append(sub)
-    reps = 3 if tier == "quick" else 80
+    reps = 3 if tier == "quick" else 300
     for _ in range(reps):
         for drv, nin in (("first_derivative", 1), ("second_derivative", 1), ("third_derivative", 1), ("second_partial_derivative", 2), ("third_partial_derivative", 3)):
             x = point(rng, nin)
